@@ -139,10 +139,12 @@ fn c05_fragments_vec() {
 /// divided by its own depth - checked by multiplying back (relative 1e-5), so an implementation
 /// that corrects perspective only every few pixels and interpolates linearly in between is told
 /// apart.  Positions and depths of *all* 20 fragments are checked exactly.
-fn fragments_long_at(kk: u32) {
+fn fragments_long_at(kk: u32, ints: bool) {
     const N: u32 = 20;
     let (z0, _rz) = pow2_depth();
-    let (a0, da) = (fin(-1e3, 1e3), fin(-10.0, 10.0));
+    // quick tier: integer-valued attribute start/step (few free mantissa bits: the divider is
+    // decided in seconds); thorough tier: arbitrary floats
+    let (a0, da) = if ints { (int(-1000, 1000) as f32, int(-10, 10) as f32) } else { (fin(-1e3, 1e3), fin(-10.0, 10.0)) };
     let mut sl: Scanline<f32> = Scanline {
         y: 3,
         xs: 2..2 + N as usize,
@@ -166,8 +168,9 @@ fn fragments_long_at(kk: u32) {
     assert!(it.next().is_none());
     kani::cover!(da > 1.0 && a0 < -1.0, "varying attribute");
 }
-#[kani::proof] #[kani::unwind(23)] fn c05_fragments_long_k8() { fragments_long_at(8); }
-#[kani::proof] #[kani::unwind(23)] fn c05_fragments_long_k19() { fragments_long_at(19); }
+#[kani::proof] #[kani::unwind(23)] fn c05_fragments_long_int_k8() { fragments_long_at(8, true); }
+#[kani::proof] #[kani::unwind(23)] fn c05_fragments_long_k8() { fragments_long_at(8, false); }
+#[kani::proof] #[kani::unwind(23)] fn c05_fragments_long_k19() { fragments_long_at(19, false); }
 
 /// depth through scan(): reciprocal depth is an affine function of the screen
 /// position (z = 1 + (p*x + q*y)/8 at the lattice corners); every fragment
